@@ -31,7 +31,7 @@ def plan(ctx):
                                                                      "for-else-126", "try-64", "names-256", "consts-257", "cells-255", "locals-256", "unused", "dup", "nested", "match", "with-paren")))
             depth, vfiles = 3, 150
         else:
-            cases = P.corpus_cases(ctx, v, n_files=250, n_w3=500, modes=30, max_file_bytes=60000)
+            cases = P.corpus_cases(ctx, v, n_files=150, n_w3=300, modes=20, max_file_bytes=30000, w1_max_bytes=60000, max_w4_bytes=12000)
             depth, vfiles = 4, 3000
         shards.extend(P.split(ctx, v, cases, k, "C06:", extra={"depth": depth, "nvariants": 6}))
     return shards
